@@ -62,11 +62,14 @@ def judge(req, impl, f, prev):
     if io.startswith('ok panic|') and not io.startswith('ok panic|assert_vfs_' + t[1] + '!'):
         return ('panic|assert_vfs_' + t[1] + '!', 'the panic message names another macro', 'is_symlink_wrong_name' if t[1] == 'is_symlink' else None)
     sp = f[1] if len(f) > 1 else '-'
+    cls = f[2] if len(f) > 2 and f[2] != '-' else None
     if sp != '-':
-        want = sp.split(' ## ')[0]
+        want, wtree = sp.split(' ## ')
         got = 'ok pass' if io == 'ok pass' else 'ok panic'
         if want != got:
-            return (want, 'the macro ' + ('passes although its predicate/postcondition is false' if got == 'ok pass' else 'panics although its predicate/postcondition holds'))
+            return (want, 'the macro ' + ('passes although its documented predicate/postcondition is false' if got == 'ok pass' else 'panics although its documented predicate/postcondition holds'), cls)
+        if wtree != '*' and ' ## ' in impl and vlib.abs_of_dump(impl) != wtree:
+            return (wtree, 'the state after the macro is not the state its documentation prescribes (checking macros: unchanged; acting macros: the state after the operation)', cls)
     return None
 
 
